@@ -209,7 +209,10 @@ def _params_of(args: ast.arguments) -> List[Param]:
 class Program:
     """The parsed repository."""
 
-    def __init__(self, root: Optional[str] = None):
+    def __init__(self, root: Optional[str] = None, overlay: Optional[Dict[str, str]] = None):
+        """overlay: relative path -> source text that replaces the file on disk (used by the self-test to analyse
+        an edited variant of the current tree without writing it anywhere)."""
+        self.overlay = dict(overlay or {})
         self.root = os.path.abspath(root or repo_root())
         self.modules: Dict[str, Module] = {}
         self.classes: Dict[str, ClassInfo] = {}
@@ -238,8 +241,11 @@ class Program:
                     if modname.endswith(".__init__"):
                         modname = modname[: -len(".__init__")]
                     try:
-                        with open(path, encoding="utf-8") as f:
-                            src = f.read()
+                        if rel in self.overlay:
+                            src = self.overlay[rel]
+                        else:
+                            with open(path, encoding="utf-8") as f:
+                                src = f.read()
                         tree = ast.parse(src, filename=path)
                     except (SyntaxError, UnicodeDecodeError, OSError) as e:
                         self.parse_errors.append(f"{rel}: {e}")
